@@ -82,6 +82,10 @@ func nativeJWT(name string, wellFormed bool, nonceKind int, nonce string, aud []
 		b = b.Audience(aud)
 	}
 	b = b.Expiration(exp)
+	// claims the code under test asked for during the symbolic run (drawn lazily by the engine)
+	for claim, v := range extraClaims(name) {
+		b = b.Claim(claim, v)
+	}
 	tok, err := b.Build()
 	if err != nil {
 		panic(err)
